@@ -1,7 +1,7 @@
 (* C07 - Parallel join delivers the same items as sequential join, each exactly once. *)
 From SV Require Import Base.ListX Store.Masked World.Env World.Join World.JoinProps World.JoinAbs World.JoinRefine
-  World.JoinAbsProps World.EnvSim.
-From Coq Require Import Sorting.Permutation.
+  World.JoinAbsProps World.EnvSim Bits.Hibit Bits.HibitIter Bits.HibitOrder Bits.HibitSet Bits.HibitExpr.
+From Coq Require Import Sorting.Permutation Sorting.Sorted.
 
 (* the parallel join is the sequential join: same items (compared as sets: the harness sorts what the
    workers deliver), same final storages, for every member mix that has the ParJoin impls *)
@@ -59,6 +59,34 @@ Theorem C07_join_refines_the_join_on_maps : forall unit av hs excl eids ms keys 
   absrel unit (fst (visit_keys av hs excl eids ms keys e)) (fst (a_visit_keys unit av hs excl eids ms keys S)).
 Proof. exact visit_keys_abs. Qed.
 
+(* ---- the mask itself: par_join hands rayon a BitProducer over the join's mask, and rayon cuts it up by any tree of
+   splits it likes.  For the layered bit set the masks are made of (four layers of 64-bit words; the splitting
+   algorithm of hibitset's BitProducer with the depth par_join asks for), whatever combination of sets the mask is and
+   whatever the tree: every leaf's loop terminates, and the leaves' outputs one after the other are the sequential
+   iteration - strictly ascending, exactly the members, so each member comes out of exactly one leaf, once ---- *)
+Theorem C07_every_split_tree_yields_each_member_exactly_once : forall g P t, exact g P ->
+  exists outs, Forall2 (fun it o => drain_iter g (S (weight it)) it = Some o) (leaves g average_ones (fresh g) t) outs /\
+               concat outs = den g (fresh g) /\
+               StronglySorted N.lt (concat outs) /\ forall x, In x (concat outs) <-> P x.
+Proof. intros g P t X. exact (split_tree_exact g P X t). Qed.
+
+(* one split: what the two halves stand for, one after the other, is what the producer stood for *)
+Theorem C07_a_split_loses_and_repeats_nothing : forall g avg,
+  (forall w, avg w = None -> (length w <= 1)%nat) -> (forall l i, sorted (g l i)) -> forall it, top_only it ->
+  match split g avg it with
+  | (a, Some b) => den g a ++ den g b = den g it /\ top_only a /\ top_only b
+  | (a, None) => den g a = den g it /\ top_only a
+  end.
+Proof. exact split_spec. Qed.
+
+Example C07_split_nonvacuous :
+  let s := fold_left bs_add [5; 70; 4100; 4101; 300000; 300001; 16000000] bs_empty in   (* three blocks of the top layer *)
+  let g := bs_get s in
+  let t := SNode (SNode SLeaf (SNode SLeaf SLeaf)) (SNode SLeaf SLeaf) in
+  map (fun it => drain_iter g 100 it) (leaves g average_ones (fresh g) t)
+  = [Some [5; 70; 4100; 4101]; Some [300000; 300001]; Some [16000000]].
+Proof. vm_compute. reflexivity. Qed.
+
 Example C07_nonvacuous :
   let e0 := env_register (env_register (env_init false) 1) 3 in
   let av := {| av_alive := fun _ => true; av_cur_gen := fun _ => 1%Z; av_err_gen := fun _ => 1%Z |} in
@@ -78,3 +106,5 @@ Print Assumptions C07_any_split_same_indices.
 Print Assumptions C07_any_split_same_items.
 Print Assumptions C07_visits_of_distinct_indices_do_not_interfere.
 Print Assumptions C07_join_refines_the_join_on_maps.
+Print Assumptions C07_every_split_tree_yields_each_member_exactly_once.
+Print Assumptions C07_a_split_loses_and_repeats_nothing.
